@@ -264,6 +264,15 @@ theorem sub_retry (s : St) (t c : String) (k : Nat) (C : Chan)
     step s (.sub t c k) = (s, Ans.exiting) := by
   simp [step, h, hx]
 
+/-- while a channel is being deleted (between `Channel.Delete()` and the unlink from the map) a
+GetChannel / create of the same name finds the exiting channel: no second channel is made on the same
+disk-queue name (replayed on the real code: corpus/C08/delete_races_getchannel.sched; tie
+`delete_chan_calls`: `Delete` before `delete`) -/
+theorem create_during_delete (s : St) (t c : String) (e : Bool) (C : Chan)
+    (h : getChan s t c = some C) : (step s (.createChan t c e)).1 = s := by
+  obtain ⟨T, hT, hC⟩ := getChan_some h
+  simp [step, hT, hC]
+
 /-- the last consumer leaving an ephemeral channel starts its deletion exactly once: the channel
 is marked exiting with no consumers and nothing located, one auto-delete is logged, and any further
 `RemoveClient` / `AddClient` on it changes nothing -/
